@@ -61,8 +61,9 @@ def cases(tier, seed):
                 # every pattern of tagged / untagged options within one sequence (an untagged option after a tagged one
                 # must still act on everything)
                 for tagged in itertools.product((False, True), repeat=k):
-                    for keys in ('asc', 'desc'):
-                        if k == 1 and keys == 'desc':
+                    # sort keys 1,2,3 / 3,2,1 and keys whose numeric order differs from their order as text (2, 10, 100)
+                    for keys in ('asc', 'desc', 'asc10', 'desc10'):
+                        if k == 1 and keys != 'asc':
                             continue
                         yield dict(kind='xform', obj=o, seq=[menu[i] for i in seq], tagged=list(tagged), keys=keys)
 
@@ -224,8 +225,8 @@ def evaluate(c):
         }
         base = dict(f=10.0, env='free', wires=[dict(kind='wire', p1=[5., 5., 5.], p2=[5., 5., 6.], n=2, r=1e-3), objs[o]])
         seq = c['seq']
-        keys = list(range(1, len(seq) + 1))
-        if c['keys'] == 'desc':
+        keys = list(range(1, len(seq) + 1)) if not c['keys'].endswith('10') else [2, 10, 100, 1.5][:len(seq)]
+        if c['keys'].startswith('desc'):
             keys = keys[::-1]
         tr = []
         tg = c['tagged'] if isinstance(c['tagged'], list) else [c['tagged']] * len(seq)
